@@ -214,9 +214,39 @@ let handle_perft line args obs =
     if string_of_int spec <> obs then report_spec line (string_of_int spec)
   | _ -> failwith ("bad perft line: " ^ line)
 
+(* gamegen P turn :: m1 m2 ... => set0 | set1 | ...   legal-move sets along a game, compared with the
+   specification game played from the start by the rules *)
+let handle_gamegen line args obs =
+  match args with
+  | ptok :: turn :: "::" :: mtoks ->
+    let p = parse_pos ptok and c = n_of_int (int_of_string turn) in
+    if wf_b p c then begin
+      let sets = List.map String.trim (Str.split_delim (Str.regexp_string " | ") obs) in
+      let moves = if mtoks = ["-"] then [] else List.map parse_move mtoks in
+      let g = ref (g_start (abs_pos p) (color_of c) Z0 (z_of_int 1)) in
+      let ok = ref true in
+      List.iteri (fun i set ->
+          if !ok then begin
+            let got = List.sort compare (if set = "-" then [] else split_on ',' set) in
+            let spec = List.sort compare (List.map smove_str (spec_legal !g.g_pos !g.g_turn)) in
+            bump "gamegen/state";
+            if got <> spec then begin
+              ok := false;
+              report_spec line (Printf.sprintf "after %d moves of the game the legal moves differ from the rules: engine has %s, rules have %s" i
+                                  (String.concat " " (List.filter (fun x -> not (List.mem x spec)) got))
+                                  (String.concat " " (List.filter (fun x -> not (List.mem x got)) spec)))
+            end;
+            (match List.nth_opt moves i with
+             | Some m -> if int_of_n m.mtype = 5 || int_of_n m.mtype = 6 then bump "gamegen/castle-played"; g := g_play !g (abs_move m)
+             | None -> ())
+          end) sets
+    end else bump "gamegen/not-wf"
+  | _ -> failwith ("bad gamegen line: " ^ short line)
+
 let handle (line : string) (kind : string) (args : string list) (obs : string) : unit =
   match kind with
   | "movegen" -> handle_movegen line args obs
+  | "gamegen" -> handle_gamegen line args obs
   | "move" -> handle_move line args obs
   | "attacks" -> handle_attacks line args obs
   | "pawnboards" -> handle_pawnboards line args obs
